@@ -605,6 +605,15 @@ spifmem_dump_mem_tables(void)
     memrec_dump_pointers(&malloc_rec);
 }
 
+#ifdef LIBAST_VERIF
+/* Verification hook (read-only use): address of the private table of tracked pointers. */
+spifmem_memrec_t *
+spifmem_verif_malloc_rec(void)
+{
+    return &malloc_rec;
+}
+#endif
+
 #if LIBAST_X11_SUPPORT
 
 /******************** PIXMAP ALLOCATION INTERFACE ********************/
@@ -945,7 +954,7 @@ spiftool_free_array(void *list, size_t count)
  * PTR:  1 pointers stored.
  * PTR:   Pointer |       Filename       |  Line  |  Address |  Size  | Offset  | 00 01 02 03 04 05 06 07 |  ASCII  
  * PTR:  ---------+----------------------+--------+----------+--------+---------+-------------------------+---------
- * PTR:   0000000 |                      |      0 | 0x8049c58 | 000036 | 0000000 | 80 9c 04 08 e8 03 00 00 | €œ..è...
+ * PTR:   0000000 |                      |      0 | 0x8049c58 | 000036 | 0000000 | 80 9c 04 08 e8 03 00 00 | ï¿½ï¿½..ï¿½...
  * PTR:   0000000 |                      |      0 | 0x8049c58 | 000036 | 0000008 | 6d 65 6d 5f 65 78 61 6d | mem_exam
  * PTR:   0000000 |                      |      0 | 0x8049c58 | 000036 | 0000010 | 70 6c 65 2e 63 00 00 00 | ple.c...
  * PTR:   0000000 |                      |      0 | 0x8049c58 | 000036 | 0000018 | 00 00 00 00 00 00 00 00 | ........
